@@ -27,7 +27,7 @@ EXPLANATION = (
     "unrelated to the user-domain objective. Hence the clause holds after any sequence of events. 'last' tracker: the latest feasible function result with functions."
 )
 ASSUMPTIONS = [
-    "results tuples per event of length <= 3 (the loop of _update_optimal_result is unrolled per length; bounded in that length, unbounded in history)",
+    "results tuples per event of length <= 5 (the loop of _update_optimal_result is unrolled per length; bounded in that length, unbounded in history)",
     "objectives are extended reals (NaN comparisons false as in IEEE-754)",
     "an externally assigned tracker value (plan.set) other than None is outside the invariant",
 ]
@@ -81,6 +81,15 @@ def cases_step(tier):
                                 continue
                             yield "%s/%s/tol=%s/%s/%s" % (what, "".join(k if k != "F0" else "f" for k in kinds), tol, "transformed" if flip else "plain", "incumbent" if inc else "empty"), {
                                 "what": what, "kinds": list(kinds), "tol": tol, "flip": flip, "incumbent": inc}
+    # longer result tuples (parallel batches of up to five vectors; a function result followed by results that cannot be tracked)
+    for what in ("best", "last"):
+        for kinds in (("F", "F0", "G"), ("F", "G", "G"), ("F", "F", "F"), ("F", "F", "F", "F"), ("F", "F0", "F", "F0", "G"), ("F", "F", "F", "F", "F")):
+            if tier == "thorough" and len(kinds) == 3:
+                continue  # all tuples of length three are enumerated above
+            for tol in ("none", "sym"):
+                for inc in (False, True):
+                    yield "%s/%s/tol=%s/plain/%s" % (what, "".join(k if k != "F0" else "f" for k in kinds), tol, "incumbent" if inc else "empty"), {
+                        "what": what, "kinds": list(kinds), "tol": tol, "flip": False, "incumbent": inc}
     for ev in ("foreign-source", "other-event", "no-results"):
         yield "ignored/%s" % ev, {"what": "best", "kinds": ["F"], "tol": "none", "flip": False, "incumbent": True, "ignore": ev}
 
@@ -337,11 +346,25 @@ def scn_added(T, case):
     T.prove("C12.added.tracker_filters_with_exactly_the_given_tolerance", (got is res) if tol is None else (got is None))
 
 
+# ------------------------------------------------------------------------------------ what the plan steps hand on (shared contract)
+def cases_steps(tier):
+    from contracts import stepcontract
+
+    return stepcontract.cases(tier)
+
+
+def scn_steps(T, case):
+    from contracts import stepcontract
+
+    stepcontract.scenario(T, case, "C12")
+
+
 SCENARIOS = [
     Scenario("tracker_step_from_any_state", scn_step, cases_step, {"quick": 10, "thorough": 60}),
     Scenario("basic_optimizer_reports_tracked", scn_basic, cases_basic, {"quick": 1, "thorough": 1}),
     Scenario("delivered_results_reach_the_tracker", scn_delivery, cases_delivery, {"quick": 1, "thorough": 3}),
     Scenario("tracker_added_through_the_plan", scn_added, cases_added, {"quick": 2, "thorough": 5}),
+    Scenario("plan_steps_hand_over", scn_steps, cases_steps, {"quick": 1, "thorough": 2}),
 ]
 
 MANIFEST = {
@@ -349,6 +372,6 @@ MANIFEST = {
     "text": "Deductive, inductive over histories: preservation of the tracker invariant (retained result = first delivered candidate with minimal optimizer-domain objective; NaN, "
             "infeasible, function-less, gradient and foreign results never displace or block) is discharged by z3 for handle_event from an arbitrary invariant state and an arbitrary "
             "event with symbolic objectives (incl. NaN), violations and tolerance; results tuples per event up to length 3. BasicOptimizer.run is proved to report exactly the tracked result.",
-    "note": "results per event bounded to <= 3 (loop unrolled), history length unbounded by induction; floats as extended reals; Plan replaced by a recording stub for BasicOptimizer.run",
+    "note": "results per event bounded to <= 5 (loop unrolled; all tuples up to length 2 (3 thorough), selected ones of length 3-5), history length unbounded by induction; floats as extended reals; Plan replaced by a recording stub for BasicOptimizer.run",
     "technique": "contract-based deductive verification: representation invariant with ghost history, preservation proved by symbolic execution of the real source + z3/cvc5; bounded run-time contract checking as stand-in",
 }
